@@ -85,6 +85,7 @@ Proof.
   - destruct (coll_id s coll); [|exact Hs]. destruct (filter _ _); exact Hs.
   - pose proof (expire_colls_ok x (map fst (s_colls s)) s [] Hs) as H.
     destruct (expire_colls s x (map fst (s_colls s)) []) as [s' evs]. exact H.
+  - destruct (coll_id s coll); exact Hs.
   - exact Hs.
 Qed.
 
